@@ -48,6 +48,11 @@ func propC13(run *Run, n int) {
 	// two hunks of ONE diff on the same array: the first edits it through a set / multiset / index path (leaving a node
 	// of another Go type in the document being patched), the second addresses it as a whole value with no / one / two
 	// removed and added values
+	for i := 0; i < 6; i++ {
+		t, dw := keyArrayThenLookup(r)
+		run.Count("two-hunks:key-array-edit-then-keyed-lookup")
+		addC13Patch(run, t, dw)
+	}
 	for i := 0; i < n/40+8; i++ {
 		t, dw := twoHunkSamePath(r)
 		run.Count("two-hunks:array-edit-then-whole-value")
@@ -63,6 +68,29 @@ func propC13(run *Run, n int) {
 			addC13Text(run, txt, VObj("a", VArr(VNum(1)), "a~", VNum(1), "~", VNum(1)))
 		}
 	}
+}
+
+// keyArrayThenLookup: a keyed member whose KEY VALUE is an array; an earlier hunk edits that array in place (which leaves
+// a node of another Go type as the member's key value), a later hunk looks a member of the same array up by key
+func keyArrayThenLookup(r *Rng) (*Val, string) {
+	t := VArr(VObj("id", VArr(VNum(1), VNum(2)), "x", VNum(1)), VObj("id", VArr(VNum(7)), "x", VNum(5)))
+	keyOf := func(v *Val) string { return "SK { \"6964 " + v.Wire() + " }" }
+	var h1 string
+	switch r.Intn(3) {
+	case 0: // append to the key array of the first member
+		h1 = fmt.Sprintf("( s %s K\"6964 I2 | #4000000000000000 | | #4008000000000000 | V )", keyOf(VArr(VNum(1), VNum(2))))
+	case 1: // as a set
+		h1 = fmt.Sprintf("( s %s K\"6964 S | | | #4008000000000000 | )", keyOf(VArr(VNum(1), VNum(2))))
+	default: // replace an element
+		h1 = fmt.Sprintf("( s %s K\"6964 I0 | V | #3ff0000000000000 | #4022000000000000 | #4000000000000000 )", keyOf(VArr(VNum(1), VNum(2))))
+	}
+	h2 := fmt.Sprintf("( s %s K\"78 | | #4014000000000000 | #4018000000000000 | )", keyOf(VArr(VNum(7))))
+	if r.Chance(1, 3) {
+		t = VObj("k", t)
+		h1 = strings.Replace(h1, "( s ", "( s K\"6b ", 1)
+		h2 = strings.Replace(h2, "( s ", "( s K\"6b ", 1)
+	}
+	return t, joinHunks([]string{strings.Join(strings.Fields(h1), " "), strings.Join(strings.Fields(h2), " ")})
 }
 
 func twoHunkSamePath(r *Rng) (*Val, string) {
